@@ -97,6 +97,12 @@ LEADING_TEMPLATES = {
     'trail-link-text':     'see [{A} x {B}{P}](http://example.com/) here',
     'trail-caption':       '| h | i |\n|---|---|\n| y | z |\n[{A} x {B}{P}]',
     'trail-definition':    'Term{P}\n: {A} x {B}{P}',
+    'trail-link-dest-unbalanced': 'see [t](<http://example.com/{A}x{B}{P} "T") here',
+    'trail-link-dest-bare': 'see [t](<{A}{B}{P}) here',
+    'trail-link-dest-angle': 'see [t](<http://example.com/{A}{B}{P}>) here',
+    'trail-image-dest':    '![i](<pic{A}{B}{P} "t")',
+    'trail-ref-dest':      'see [t][rd{N}]\n\n[rd{N}]: <http://example.com/{A}{B}{P}',
+    'trail-code-span':     'code `{A} x {B}{P}` here',
     'trail-paragraph':     '{A} x {B}{P}',
     'trail-atx':           '# {A} x {B}{P} #',
     'trail-quote-fenced':  '> ```\n> {A} x {B}{P}\n> ```',
